@@ -240,6 +240,23 @@ class UserCallbackError(Exception):
     """raised by a lifecycle callback of the program under test (user code failing)"""
 
 
+# user code usually fails with one of the built-in exception types (a failed lookup, a missing attribute): none of them
+# means anything to the library, all of them come out of the operation unchanged
+class _UserKeyError(UserCallbackError, KeyError):
+    pass
+
+
+class _UserAttributeError(UserCallbackError, AttributeError):
+    pass
+
+
+class _UserStopIteration(UserCallbackError, StopIteration):
+    pass
+
+
+USER_ERRORS = [UserCallbackError, _UserKeyError, _UserAttributeError, _UserStopIteration]
+
+
 class Run:
     def __init__(self, case, checks):
         self.case = case
@@ -712,7 +729,7 @@ class Run:
         if action == 3:
             # user code failing: the on_remove of a component of an entity being deleted by this frame raises
             self.flags['reaction:raise'] += 1
-            self.user_error = UserCallbackError('on_remove raised inside process()')
+            self.user_error = USER_ERRORS[self.step_ix % len(USER_ERRORS)]('on_remove raised inside process()')
             raise self.user_error
         # entities whose own removal is in progress further up the call stack are only ever deferred-deleted
         # again (action 0); stripping or immediately deleting an entity in the middle of its own deletion is
